@@ -765,3 +765,38 @@ func boundGuarded(p *Program, fn *ssa.Function, sl *ssa.Slice, bnd ssa.Value) (b
 	}
 	return false, "no dominating comparison of the bound found"
 }
+
+// decidedRel finds the decision about a relation between two symbolic values given by key patterns,
+// independent of how the source spelled it (a != b, b == a, a >= b, b < a, ...).
+func decidedRel(pa *Path, a, rel, b string) (bool, bool) {
+	switch rel {
+	case "==", "!=":
+		for _, k := range []string{"(" + a + " == " + b + ")", "(" + b + " == " + a + ")"} {
+			re := pat(k)
+			for _, d := range pa.Decisions {
+				if re.MatchString(d.Key) {
+					return d.Val == (rel == "=="), true
+				}
+			}
+		}
+	case "<", ">", "<=", ">=":
+		// a < b ; a > b ≡ b < a ; a >= b ≡ !(a < b) ; a <= b ≡ !(b < a)
+		l, r, neg := a, b, false
+		switch rel {
+		case ">":
+			l, r = b, a
+		case ">=":
+			neg = true
+		case "<=":
+			l, r, neg = b, a, true
+		}
+		re := pat("(" + l + " < " + r + ")")
+		for _, d := range pa.Decisions {
+			if re.MatchString(d.Key) {
+				return d.Val != neg, true
+			}
+		}
+		// the complementary atom: (r < l) false does not decide l < r; but (r < l) true decides l < r false
+	}
+	return false, false
+}
